@@ -83,8 +83,25 @@ def _copies():
     return _cls
 
 
+class _Stub(types.SimpleNamespace):
+    """stand-in for `self` in direct calls of the private assignment / buffer routines.  Attributes the routine reads under a name
+    this harness does not know are answered by role (a renamed private attribute must not blind the family): *selector* -> the
+    ownership selector, *block*param* -> the blocks, *size* -> the group size."""
+
+    def __getattr__(self, name):
+        d = self.__dict__
+        low = name.lower()
+        if "selector" in low and "_distributor_selector" in d:
+            return d["_distributor_selector"]
+        if "block" in low and "param" in low and "_global_blocked_params" in d:
+            return d["_global_blocked_params"]
+        if "size" in low and "_group_size" in d:
+            return d["_group_size"]
+        raise AttributeError(name)
+
+
 def _stub(G, **kw):
-    return types.SimpleNamespace(_group_size=G, _dist_group_size=G, **kw)
+    return _Stub(_group_size=G, _dist_group_size=G, **kw)
 
 
 def _call_assign(cls, sizes, G):
